@@ -43,6 +43,7 @@ Record facts := {
   f_forwards_update : list (string * bool);
   (* __normalize_mapping: ordered step tokens *)
   f_pipeline : list string;
+  f_worklist : list string;          (* F12: shape tokens of the default-setter work-list loop *)
   (* __init_processing reset list, in order *)
   f_resets : list string;
   (* validate(): per-call attributes assigned before __init_processing *)
